@@ -6,7 +6,8 @@
 (*              (with coin 1 among its inputs it conflicts with S1: a double spend)               *)
 (* delivered in every order and any number of times: coins reported as UTXOs at any height or     *)
 (* unmined, transactions stored as mined at any height or unmined with expiry 0 or E, the tip     *)
-(* advancing (across E) and the wallet rewinding to any height.                                    *)
+(* advancing (across E), status updates (a known transaction was mined at h) and the wallet       *)
+(* rewinding to any height.                                                                        *)
 EXTENDS Integers, Sequences, FiniteSets, FiniteSetsExt, TLC
 
 CONSTANTS ExpiryDelta, Dust, Maturity, MaxH, E, MaxOps
@@ -38,10 +39,14 @@ Store  == \E t \in 1..3, h \in Heights, e \in {0, E} :
              /\ tip # NULL /\ ~C!Remines(cs, t, h) /\ (e = 0 \/ h = NULL \/ h <= e)
              /\ (t \in DOMAIN cs.ttx /\ cs.ttx[t].mined # NULL => e = 0 \/ cs.ttx[t].mined <= e)
              /\ Op(cs' \in C!StoreFullTx(cs, tip, t, Ins(t), Outs(t), h, e) /\ UNCHANGED tip)
+Status == \E t \in 1..3, h \in 1..MaxH :
+             /\ tip # NULL /\ ~C!Remines(cs, t, h)
+             /\ (t \in DOMAIN cs.ttx => cs.ttx[t].expiry \in {NULL, 0} \/ h <= cs.ttx[t].expiry)
+             /\ Op(cs' = C!SetMined(cs, t, h) /\ UNCHANGED tip)
 Tip    == \E h \in 1..MaxH : h >= 1 /\ Op(tip' = (IF h > tip THEN h ELSE tip) /\ UNCHANGED cs)
 Trunc  == \E to \in 0..MaxH : tip # NULL /\ to <= tip /\ Op(tip' = to /\ cs' = C!Truncate(cs, to))
 
-Next == Report \/ Store \/ Tip \/ Trunc
+Next == Report \/ Store \/ Status \/ Tip \/ Trunc
 Spec == Init /\ [][Next]_vars
 
 --------------------------------------------------------------------------------------
@@ -87,6 +92,13 @@ Confluent ==
          => LET rep(x) == C!ReportUtxo(x, tip, c, CoinInfo[c].tx, CoinInfo[c].v, CoinInfo[c].acct, h)
                 sto(x) == C!StoreFullTx(x, tip, t, Ins(t), Outs(t), h2, e)
             IN  Proj(UNION { sto(x) : x \in rep(cs) }) = Proj(UNION { rep(x) : x \in sto(cs) })
+
+\* NOT a theorem (see notes/c01-coins-report.md, "conflicting spenders"): of several conflicting spenders remembered for
+\* a coin that arrives later the wallet links one; if another of them is later reported mined by a status update, the
+\* coin is spent by a mined transaction the wallet has full data of and may still be counted.  TLC refutes this
+\* statement on the transcription (cfg MC_Coins_conflict.cfg) - the counterexample is the history.
+KnownMinedSpenderWins ==
+    \A k \in cs.smap : (k[2] \in Known /\ MinedBelowTarget(k[1])) => ~C!Counted(cs, k[2], target)
 
 \* repeating a delivery changes nothing (idempotence)
 Idempotent ==
